@@ -77,10 +77,14 @@ def run(tier, seed, replay=None):
     strings += [bytes(k) for k in range(0, 800 if not big else 1500)]
     strings += [b"\x07" + bytes(k) + b"\x09" for k in range(0, 300)]
     strings += [bytes(7) + bytes([1 + (k % 250)]) * k for k in range(1, 70)]
+    # sizes around codec-internal buffer limits, compressible content, every selector
+    for n in (4095, 4096, 4097, 5000, 8191, 8192, 8193, 9000, 16384, 20000, 32768, 65536):
+        strings.append((b"quest item World\\Maps\\Azeroth\\ 0123456789\r\n" * (n // 40 + 1))[:n])
+        strings.append((bytes((k * 37 + 11) & 0xFF for k in range(23)) * (n // 23 + 1))[:n])
     # ---- round trip oracle on the implementation, all lossless selectors
     lines, meta = [], []
     for i, s in enumerate(strings):
-        for m in (LOSSLESS if (i % 3 == 0 or len(s) < 600) else [r.choice(LOSSLESS), 0x20]):
+        for m in (LOSSLESS if (i % 3 == 0 or len(s) < 600 or i >= len(strings) - 24) else [r.choice(LOSSLESS), 0x20]):
             lines.append("rt %x %s" % (m, C.hexs(s)))
             meta.append((m, len(s)))
     # own output of large, highly compressible inputs must be accepted (F5 region)
